@@ -67,8 +67,24 @@ FollowJudge(e) ==
             /\ (e.isNil # e.model.isNil \/ [k \in DOMAIN e.result |-> e.result[k]] # [k \in DOMAIN e.model.result |-> e.model.result[k]])
         THEN {"MODEL.resolverResultDiffers"} ELSE {})
 
+\* hard-link names along NewFS -> NewFilterFS -> WithHardlinkReset (cases enumerated by TLC from HardlinkMC): the property
+\* layer's rule on the real stream - among the reported members of an inode the first is sent plain and every later one names
+\* it, so the receiver's validator accepts the stream - and conformance with the stream the ALGORITHM model ends in
+HLJudge(e) ==
+  LET n == Len(e.grp)
+      Rep(g) == {f \in 1..n : e.grp[f] = g /\ e.st[f] = "reported"}
+      First(g) == CHOOSE f \in Rep(g) : \A k \in Rep(g) : f <= k
+      r == e.real
+  IN (IF e.walkErr THEN {"C11.filteredWalkFailed"} ELSE {})
+     \cup (IF ~e.walkErr /\ ([k \in DOMAIN r |-> r[k].p] # SelectSeq([k \in 1..n |-> k], LAMBDA f : e.st[f] = "reported")
+                             \/ \E k \in DOMAIN r : r[k].l # (IF r[k].p = First(e.grp[r[k].p]) THEN 0 ELSE First(e.grp[r[k].p])))
+           THEN {"C11.hardlinkNamesBreakResetRule"} ELSE {})
+     \cup (IF ~e.walkErr /\ [k \in DOMAIN r |-> <<r[k].p, r[k].l>>] # [k \in DOMAIN e.model |-> <<e.model[k].p, e.model[k].l>>]
+           THEN {"MODEL.hardlinkNamesDiffer"} ELSE {})
+
 Judge(e) ==
-  IF e.ev = "Tar" THEN Pfx("C17", TarClauses(e) \cup (IF e.writeErr THEN {} ELSE ExtractClauses(e)))
+  IF e.ev = "HLCase" THEN HLJudge(e)
+  ELSE IF e.ev = "Tar" THEN Pfx("C17", TarClauses(e) \cup (IF e.writeErr THEN {} ELSE ExtractClauses(e)))
   ELSE IF e.ev = "Follow" THEN FollowJudge(e)
   ELSE IF e.ev = "Walk" THEN Pfx("C09", WalkClauses(e.calls, e.tree, e.api = "FSsub")) \cup (IF e.walkErr THEN {"C09.walkReturnedError"} ELSE {})
   ELSE IF e.ev = "Filter" THEN FilterClauses(e)
